@@ -28,6 +28,9 @@ def cases(tier, seed):
     for i, c in enumerate(cs):
         c["sel_seed"] = seed * 67 + i
         c["gen"]["base_blocks"] = (1, 2) if c["gen"]["bf"] >= 4 else (2, 4)
+        if i % 5 == 1:      # fine boxes that hold only zeros over coarse data that is not zero
+            c["zero_fine"] = True
+            c["gen"]["nlevels"] = max(2, c["gen"]["nlevels"])
         if i % 5 == 3:      # a header written with six significant digits: cell sizes whose ratios are not exactly 2
             c["gen"]["aniso"] = [1.0 / 6, 1.0 / 3, 1.0 / 12]
             c["gen"]["nlevels"] = 3 if c["gen"]["bf"] <= 2 else max(2, c["gen"]["nlevels"])
